@@ -101,7 +101,8 @@ class DotRenderer:
         if not (name := hugr[hugr.root].metadata.get("name", None)):
             name = ""
 
-        graph = gv.Digraph(name, strict=False)
+        # metadata values are arbitrary JSON values, the graph title is a string
+        graph = gv.Digraph(str(name), strict=False)
         graph.attr(**graph_attr)
 
         self._viz_node(hugr.root, hugr, graph)
